@@ -40,6 +40,10 @@ class Quiescent(BaseException):
     """Raised by a seam when the simulated system would block forever."""
 
 
+class BlockedForever(Quiescent):
+    """The program sits in a blocking read on a descriptor nothing will ever be written to again."""
+
+
 class Livelock(BaseException):
     """Raised by a seam when the per-run cap on seam calls is exceeded."""
 
